@@ -53,17 +53,12 @@ type ledgerRun struct {
 	failed          bool
 	preGate         bool
 	gateBroken      bool
+	note            string                                // what the harness just did (appended to failure messages)
+	hist            string                                // what is special about this history (appended to failure messages)
+	prevSupply      map[types.ZenonTokenStandard]*big.Int // recorded supplies at the previous state comparison
+	expectDelta     map[types.ZenonTokenStandard]*big.Int // supply changes the momentum's token-contract receives account for (nil: no check)
+	deltaWhy        []string
 	undo            map[uint64][]func() // per momentum height: how to take its blocks out of the harness log again (rollback)
-	pool     *argPool
-	failed   bool
-	preGate  bool
-	gateBroken bool
-	note     string              // what the harness just did (appended to failure messages)
-	hist     string              // what is special about this history (appended to failure messages)
-	prevSupply  map[types.ZenonTokenStandard]*big.Int // recorded supplies at the previous state comparison
-	expectDelta map[types.ZenonTokenStandard]*big.Int // supply changes the momentum's token-contract receives account for (nil: no check)
-	deltaWhy    []string
-	undo     map[uint64][]func() // per momentum height: how to take its blocks out of the harness log again (rollback)
 }
 
 func (r *ledgerRun) fail(format string, a ...interface{}) {
